@@ -279,6 +279,32 @@ def run_task(task, acc):
                 yield dict(entry="aggregate", vectors=[list(v) for v in vs_[:k]])
             red = alpha.debruijn(RED, 2) * 6
             yield dict(entry="store", vectors=[list(red), list(red[5:] + red[:5]), list(red[11:] + red[:11])])
+            # very long vectors (5000 entries)
+            big = alpha.xl(SYMS, 5000, 2)
+            bs = [big[s:] + big[:s] for s in (0, 1, 83, 1024, 2047)]
+            for k in (1, 2, 3, 5):
+                yield dict(entry="qartod_compare", vectors=[list(v) for v in bs[:k]], carrier="ma")
+                yield dict(entry="aggregate", vectors=[list(v) for v in reversed(bs[:k])])
+            allgood = [1] * 5000
+            for worst in (2, 3, 4, 9, "m4"):
+                for at in (0, 511, 1023, 1024, 2047, 2048, 4095, 4096, 4999):
+                    one = list(allgood)
+                    one[at] = worst
+                    yield dict(entry="qartod_compare", vectors=[allgood, one], carrier="ma")
+                    yield dict(entry="aggregate", vectors=[one, allgood])
+            bigred = alpha.xl(RED, 3000, 2)
+            yield dict(entry="store", vectors=[list(bigred), list(bigred[7:] + bigred[:7])])
+            # many vectors: the only non-GOOD entries sit in the j-th of k vectors
+            for k in (6, 8, 9, 12, 13, 16, 17, 33):
+                for j in range(k):
+                    vectors = [[1, 1, 2, 1] for _ in range(k)]
+                    vectors[j] = [4, 3, 2, 9]
+                    if j + 1 < k:
+                        vectors[(j + 5) % k] = ["m4", 1, 1, 1]
+                    yield dict(entry="qartod_compare", vectors=vectors, carrier="ma")
+                    yield dict(entry="aggregate", vectors=vectors)
+                    if k in (9, 13, 33):
+                        yield dict(entry="store", vectors=[[("m4" if e == "m4" else e) for e in v] for v in vectors])
         run_cases(acc, gen(), check_case)
     elif kind == "seq":
         pool = vecs(RED, 2)
